@@ -76,7 +76,9 @@ def case_s(draw):
     resp_size = draw(st.sampled_from([0, 10, 500, 5000]))
     chunk_size = draw(st.sampled_from([None, 1, 16, 300]))
     raise_in = draw(st.sampled_from(["none", "none", "none", "headers", "data", "finish"]))
-    return dict(raise_in=raise_in, framing=framing, body=body, chunks=chunks, layer=layer, hdr_async=hdr_async, data_async=data_async,
+    # the server itself rejects the message after the delegate has seen the headers
+    reject = draw(st.sampled_from(["none", "none", "none", "none", "body_over_limit", "bad_chunk"]))
+    return dict(raise_in=raise_in, reject=reject, framing=framing, body=body, chunks=chunks, layer=layer, hdr_async=hdr_async, data_async=data_async,
                 respond=respond, where=where, frac=frac, event=event, segs=segs, write_credit=write_credit,
                 resp_size=resp_size, chunk_size=chunk_size, cut=None)
 
@@ -96,6 +98,8 @@ def build_request(case):
             k = min(sizes.pop(0) if sizes else 500, len(body) - pos)
             out += b"%x\r\n" % k + body[pos : pos + k] + b"\r\n"
             pos += k
+        if case.get("reject") == "bad_chunk" and out[-2:] == b"\r\n":
+            out[-2:] = b"XX"  # framing error after good chunks
         out += b"0\r\n\r\n"
         payload = bytes(out)
     else:
@@ -265,6 +269,8 @@ def run_scenario(case):
             kw["body_timeout"] = 5.0
         if case["chunk_size"]:
             kw["chunk_size"] = case["chunk_size"]
+        if case.get("reject") == "body_over_limit" and case["body"]:
+            kw["max_body_size"] = max(0, len(case["body"]) - 1 - (case["frac"] % 3))
         sess = ServerSession(Conn(), **kw)
         if case["write_credit"] is not None:
             sess.stream.write_credit = case["write_credit"]
@@ -342,7 +348,14 @@ def run_case(ctx, case):
         labels.add("app_raises_in_" + case["raise_in"])
     if case["respond"] in ("in_headers", "in_data"):
         labels.add("responds_before_request_read")
-    if cut >= total and case["event"] == "none" and case.get("raise_in", "none") == "none" and case["respond"] not in ("in_headers", "in_data"):
+    rejected = (case.get("reject") == "body_over_limit" and bool(case["body"])) or \
+        (case.get("reject") == "bad_chunk" and case["framing"] == "chunked" and bool(case["body"]))
+    if rejected:
+        labels.add("server_rejects_after_headers:" + case["reject"])
+        for r in started:
+            if r["finish"] and case["respond"] not in ("in_headers", "in_data") and cut >= total:
+                ctx.fail("C05.rejected_message_reported_finished", info)
+    if cut >= total and case["event"] == "none" and case.get("raise_in", "none") == "none" and case["respond"] not in ("in_headers", "in_data") and not rejected:
         labels.add("complete_no_fault")
         if not started or started[0]["finish"] != 1:
             ctx.fail("C05.complete_request_not_finished", info)
